@@ -53,6 +53,9 @@ type C07Case struct {
 	Cfg    C07Cfg    `json:"cfg"`
 	Conns  []C07Conn `json:"conns"`
 	Rounds int       `json:"rounds"` // 2: the same batch again (with Short: after the validity has passed)
+	// Churn: a cache of one or two entries and 32 sessions for 32 different hosts at the same moment, three times over:
+	// every leaf is pushed out of the cache while the handshake it was made for may still be under way
+	Churn bool `json:"churn,omitempty"`
 }
 
 func c07Names() []string {
@@ -120,6 +123,13 @@ func genC07(t *rapid.T) C07Case {
 	c.Rounds = 1
 	if rapid.IntRange(0, 3).Draw(t, "rounds") == 0 || c.Cfg.Short {
 		c.Rounds = 2
+	}
+	if c.Cfg.CacheSize <= 2 && rapid.IntRange(0, 2).Draw(t, "churn") == 0 {
+		c.Churn, c.Conns, c.Rounds = true, nil, 3
+		perm := rapid.Permutation(names).Draw(t, "churnhosts")
+		for i := 0; i < 32; i++ {
+			c.Conns = append(c.Conns, C07Conn{Host: perm[i], Origin: "good", SNI: "=", Inner: i%4 == 0})
+		}
 	}
 	return c
 }
@@ -429,7 +439,7 @@ type bufferedConn struct {
 func (b *bufferedConn) Read(p []byte) (int, error) { return b.r.Read(p) }
 
 func classifyC07(c C07Case) (bool, string, []string) {
-	cls := []string{fmt.Sprintf("cache=%d", c.Cfg.CacheSize), "domains-" + c.Cfg.Domains, fmt.Sprintf("conns=%d", len(c.Conns)), "upstream-" + c.Cfg.Upstream}
+	cls := []string{fmt.Sprintf("cache=%d", c.Cfg.CacheSize), fmt.Sprintf("churn=%v", c.Churn), "domains-" + c.Cfg.Domains, fmt.Sprintf("conns=%d", len(c.Conns)), "upstream-" + c.Cfg.Upstream}
 	if c.Cfg.AutoCA {
 		cls = append(cls, "generated-ca")
 	}
